@@ -244,6 +244,23 @@ theorem header_functions_keep_data (h : Row) (p : List Nat) (spec : List (FSpec 
   · cases t <;> rfl
   · simp [renameView, Out.ok]
 
+/-- `rename` is simultaneous: output field `i` is a function of `i`, the input field at `i` and the spec alone
+    (never of what another entry of the spec produced); the header keeps its length -/
+theorem rename_pointwise (spec : List (FSpec × Val)) (t : Table) :
+    ((renameView spec false t).rows.headD []).length = (t.headD []).length ∧
+    ∀ (i : Nat) (c : Val), (t.headD [])[i]? = some c →
+      ((renameView spec false t).rows.headD [])[i]? = some
+        (match spec.find? (fun s => s.1 == .idx i) with
+         | some s => s.2
+         | none => match spec.find? (fun s => match s.1, c with | .name n, .str m => n == m | _, _ => false) with
+           | some s => s.2
+           | none => c) := by
+  constructor
+  · simp [renameView, Out.ok]
+  · intro i c h
+    simp [renameView, Out.ok, List.getElem?_map, List.getElem?_zipIdx]
+    exact ⟨c, by simpa using h, rfl⟩
+
 /-! ### fills -/
 
 theorem fillrightRow_length (m : Val) : ∀ (r : Row) (p : Option Val), (fillrightRow m p r).length = r.length := by
